@@ -11,7 +11,8 @@ Mirrors
 * `NumpyFFTWBackend.rigid_transform`: centre `(n-1)/2` (geometric) or a given centre (centre of mass),
   data and mask resampled through the *same* matrix;
 * `matching_utils.rigid_transform` (coordinate version, both `use_geometric_center` branches, mask);
-* `Structure.rigid_transform` / `Density.rigid_transform` are thin wrappers around the two.
+* `Structure.rigid_transform` / `Density.rigid_transform` are thin wrappers around the two; the Density wrapper
+  ends with a clean-up of interpolation noise (`cleanNoise`, relative to the data's magnitude since the repair).
 
 Vectors are `Fin d → α`, matrices `Fin d → Fin d → α` for any dimension `d`; the scalar type is
 generic (executed at `Int` for the grid group in doubled coordinates and at `Rat` for everything else).
@@ -294,6 +295,32 @@ def coordsTransformGeo {N M d : Nat} (halfFloor : α → α) (x : Fin (N+1) → 
   coordsGeoCore halfFloor x R t (center.getD (mean x)) mask
 
 end coordsGeo
+
+/-! ## `Density.rigid_transform`: removal of interpolation noise after the transform -/
+section clean
+variable {α : Type} [Mul α] [Neg α] [Zero α] [Max α] [LT α] [DecidableLT α]
+
+/-- `np.abs(v)` -/
+def absV (v : α) : α := max v (-v)
+
+/-- `np.abs(out).max(initial=0)` -/
+def absMax (l : List α) : α := l.foldr (fun v m => max (absV v) m) 0
+
+/-- the tail of `Density.rigid_transform` (floating dtypes; integer data is returned as the backend wrote it):
+```
+eps = np.finfo(ret.data.dtype).eps * np.abs(ret.data).max(initial=0)
+ret.data[np.abs(ret.data) < eps] = 0
+```
+on the flattened output. -/
+def cleanNoise (eps : α) (l : List α) : List α :=
+  let m := absMax l
+  l.map (fun v => if absV v < eps * m then 0 else v)
+
+/-- the tail as it was before the repair: `ret.data[np.abs(ret.data) < eps] = 0` (absolute threshold) -/
+def cleanNoiseAbs (eps : α) (l : List α) : List α :=
+  l.map (fun v => if absV v < eps then 0 else v)
+
+end clean
 
 /-- `astype(int)` on rationals: truncation toward zero -/
 def truncRat (x : Rat) : Rat := if x ≥ 0 then ((x.floor : Int) : Rat) else ((-((-x).floor) : Int) : Rat)
